@@ -739,7 +739,10 @@ def write_evidence(ctx, plugin, gate, axioms, items, n_lem, n_lem_ok, n_viol, ex
     ev = {"property_id": plugin.ID, "tier": ctx.tier, "seed": ctx.seed, "level": "proof", "coverage": cov,
           "assumptions": list(getattr(plugin, "ASSUMPTIONS", [])), "wall_s": round(time.time() - ctx.t0, 2),
           "violations": n_viol}
-    os.makedirs(os.path.join(ROOT, "evidence"), exist_ok=True)
-    tmp = os.path.join(ROOT, "evidence", plugin.ID + ".json.tmp")
+    # evidence/ describes /repo only; a run against a scratch worktree (RLIB_REPO, my own mutation experiments)
+    # writes its evidence next to the other scratch output
+    edir = os.path.join(ROOT, "evidence") if ctx.repo == "/repo" else os.path.join(ROOT, ".work", "evidence-scratch")
+    os.makedirs(edir, exist_ok=True)
+    tmp = os.path.join(edir, plugin.ID + ".json.tmp")
     json.dump(ev, open(tmp, "w"), indent=1, default=str)
-    os.replace(tmp, os.path.join(ROOT, "evidence", plugin.ID + ".json"))
+    os.replace(tmp, os.path.join(edir, plugin.ID + ".json"))
